@@ -80,6 +80,13 @@ fn codec_oracle(toks: &[&str]) -> String {
     }
     let mut leaves = Vec::new();
     walk(&meta0,&mut Vec::new(),&mut leaves);
+    // the META chunk of a WOZ image starts out empty: its records appear only once they are written
+    if typ=="woz1" || typ=="woz2" {
+        for k in ["title","subtitle","publisher","developer","copyright","notes","side_name","contributor"] {
+            let leaf = vec![typ.clone(),"meta".to_string(),k.to_string()];
+            if !leaves.contains(&leaf) { leaves.push(leaf); }
+        }
+    }
     for leaf in &leaves {
         let last = leaf.last().unwrap().as_str();
         let key = if last=="_raw" && leaf.len()>1 { leaf[leaf.len()-2].as_str() } else { last };
@@ -151,7 +158,7 @@ fn codec_oracle(toks: &[&str]) -> String {
     // every kind of free-text value in turn (one line, LF and CR LF breaks, a control character, lengths around the field sizes):
     // written, read back, serialised, parsed again, read back
     let values: Vec<String> = vec!["VERIF 1".to_string(),"two\nlines".to_string(),"dos\r\nline\r\nbreaks".to_string(),"three\nshort\nlines\nhere".to_string(),
-        "ctl\u{1a}z".to_string(),"X".repeat(31),"X".repeat(32),"X".repeat(33),"X".repeat(255),"X".repeat(256),"X".repeat(500)];
+        "ctl\u{1a}z".to_string(),"ends with a blank ".to_string(),"   ".to_string()," leading and trailing\t".to_string(),"X".repeat(31),"X".repeat(32),"X".repeat(33),"X".repeat(255),"X".repeat(256),"X".repeat(500)];
     let mut swept = 0;
     for val in &values {
         let mut img3 = match a2kit::create_img_from_bytestream(&b1,Some(ext_of(label))) { Ok(i) => i, Err(e) => return format!("FAIL serialised image does not load again: {}",e) };
@@ -164,20 +171,29 @@ fn codec_oracle(toks: &[&str]) -> String {
             }
         }
         if put.is_empty() { continue; }
-        let look = |img: &Box<dyn DiskImage>,when: &str| -> Result<(),String> {
+        let look = |img: &Box<dyn DiskImage>,when: &str| -> Result<Vec<String>,String> {
             let m = json::parse(&img.get_metadata(None)).map_err(|e| format!("metadata not JSON {}: {}",when,e))?;
+            let mut seen = Vec::new();
             for path in &put {
                 let mut node = &m;
                 for k in path { node = &node[k.as_str()]; }
                 let got = node.as_str().unwrap_or("<not a string>");
                 if got.trim_end().replace("\r\n","\n")!=val.replace("\r\n","\n").trim_end() { return Err(format!("metadata {:?} written as {:?} reads back as {:?} {}",path,val,got,when)); }
+                seen.push(got.replace("\r\n","\n"));
             }
-            Ok(())
+            Ok(seen)
         };
-        if let Err(e) = look(&img3,"before saving") { return format!("FAIL {}",e); }
+        let before = match look(&img3,"before saving") { Ok(v) => v, Err(e) => return format!("FAIL {}",e) };
         let b3 = img3.to_bytes();
-        let img4 = match a2kit::create_img_from_bytestream(&b3,Some(ext_of(label))) { Ok(i) => i, Err(e) => return format!("FAIL image with metadata {:?} = {:?} does not load again after serialising: {}",put[0],val,e) };
-        if let Err(e) = look(&img4,"after reload") { return format!("FAIL {}",e); }
+        let mut img4 = match a2kit::create_img_from_bytestream(&b3,Some(ext_of(label))) { Ok(i) => i, Err(e) => return format!("FAIL image with metadata {:?} = {:?} does not load again after serialising: {}",put[0],val,e) };
+        let after = match look(&img4,"after reload") { Ok(v) => v, Err(e) => return format!("FAIL {}",e) };
+        // a fixed-size field may drop the blanks it pads with; whatever the image shows before saving it must show again after loading,
+        // and a field that kept trailing blanks before saving has to keep them
+        for i in 0..put.len() {
+            if before[i]!=after[i] { return format!("FAIL metadata {:?} written as {:?} reads {:?} before saving and {:?} after reload",put[i],val,before[i],after[i]); }
+        }
+        let b4 = img4.to_bytes();
+        if b4!=b3 { return format!("FAIL with metadata {:?} = {:?} the second serialisation differs from the first (lengths {} / {})",put[0],val,b3.len(),b4.len()); }
         swept += put.len();
     }
     format!("ok type={} bytes={} edits={} swept={}",typ,b1.len(),edits.len(),swept)
